@@ -90,7 +90,9 @@ def gen_record(rng, r):
                     kind = rng.choice(["int", "int", "int", "rs", "none"])
                 else:
                     kind = "det"
-                ops.append({"op": "call", "t": ti, "kind": kind, "s": rng.choice(seeds)})
+                # refit: estimator objects are fitted this many times before the result is taken (int seeds only);
+                # not part of the comparison key: the number of earlier fits must not matter
+                ops.append({"op": "call", "t": ti, "kind": kind, "s": rng.choice(seeds), "refit": rng.choice([1, 1, 2, 3])})
         threads.append({"role": "actor", "ops": ops})
     if cfg["noise"]:
         threads.append({"role": "noise", "ops": [{"op": "perturb", "p": rngenv.gen_perturb(rng)} for _ in range(rng.randint(3, 10))]})
@@ -207,6 +209,9 @@ class Run:
         else:
             seed_obj = None
         g = catalog.Choices(replay=tm["choices"], seed_value=seed_obj, callback=self.callback if e["cb"] else None, dtype=tm.get("dtype"))
+        g.refit = op.get("refit", 1) if kind == "int" else 1
+        if g.refit > 1:
+            self.cnt.inc("probe:estimator_refitted_before_result")
         call = e["build"](g)
         tags = fp_tags(call["kwargs"], g.notes)
         st = t.local
